@@ -22,6 +22,6 @@ UNITS = [
              ("select", "nodes(r) == sel_name(nd(__p0), key@)"),
              ("shape", "r is Ref || r is Nothing"),
          ],
-         closures={1: Cl(types=["&'a T"], ret="(d: Data<'a, T>)",
+         closures={1: Cl(expect="Data::new_ref(Pointer::key(", types=["&'a T"], ret="(d: Data<'a, T>)",
                          ensures=[("ptr", "d matches Data::Ref(p) && p.inner == v && p.path@ == key_path(path@, key@)")])}),
 ]
